@@ -467,12 +467,47 @@ impl<T: Qcow2IoOps> Qcow2Dev<T> {
         self.call_fsync(off, len, 0).await
     }
 
+    /// zero every new cluster whose zeroing isn't started yet, so that no
+    /// mapping which points to stale host data can reach disk
+    pub(crate) async fn zero_new_clusters(&self) -> Qcow2Result<()> {
+        let info = &self.info;
+        let pending: Vec<_> = {
+            let cls_map = self.new_cluster.read().await;
+            cls_map.iter().map(|(k, c)| (*k, c.clone())).collect()
+        };
+        let mut zeroed = false;
+
+        for (key, cluster) in pending {
+            // wait for the writer which is zeroing this cluster
+            let mut lock = cluster.write().await;
+            if !(*lock) {
+                *lock = true;
+                if let Err(e) = self
+                    .call_fallocate(key << info.cluster_bits(), info.cluster_size(), 0)
+                    .await
+                {
+                    *lock = false;
+                    return Err(e);
+                }
+                drop(lock);
+                self.clear_new_cluster(key).await;
+                zeroed = true;
+            }
+        }
+        if zeroed {
+            self.call_fsync(0, usize::MAX, 0).await?;
+        }
+        Ok(())
+    }
+
     /// flush meta data in ram to disk
     pub async fn flush_meta(&self) -> Qcow2Result<()> {
         let _flush_lock = self.flush_lock.lock().await;
 
         log::debug!("flush_meta: entry");
         loop {
+            self.zero_new_clusters().await?;
+
             // refcount is usually small size & continuous, so simply
             // flush all
             self.flush_refcount().await?;
